@@ -1439,23 +1439,30 @@ fn recorder_direct(which: u8, smax: usize, barrier: bool) {
     std::mem::forget(ctx);
 }
 
-// @cell props=C01,C02 tier=quick kind=core timeout=1800 mem=14 cls=K
-// @desc sample recorder called directly, by-reference/slot path, sample size symbolic 0..=3, an input counter attached:
+// @cell props=C01,C02 tier=quick kind=core timeout=1800 mem=26 cls=K
+// @desc sample recorder called directly, by-reference/slot path, sample size symbolic 0..=2, an input counter attached:
 // @desc every input is shown exactly once to the counter before the start timestamp, then used once, output dropped,
 // @desc input dropped; the returned allocation info holds exactly the timed section's operations
 mon_stubs! {
     #[kani::unwind(6)]
-    fn c01_recorder_refs_counted() { recorder_direct(0, 3, false) }
+    fn c01_recorder_refs_counted() { recorder_direct(0, 2, false) }
 }
 
-// @cell props=C01,C02 tier=quick kind=core timeout=1800 mem=14 cls=K
+// @cell props=C01,C02 tier=thorough kind=core timeout=2400 mem=30 cls=K
+// @desc the same with sample size symbolic 0..=3 (11.6 M variables / 50 M clauses: needs more than 14 GB)
+mon_stubs! {
+    #[kani::unwind(6)]
+    fn c01_recorder_refs_counted_s3() { recorder_direct(0, 3, false) }
+}
+
+// @cell props=C01,C02 tier=quick kind=core timeout=1800 mem=26 cls=K
 // @desc sample recorder called directly, by-value/slot path, sample size symbolic 0..=3, input counter attached
 mon_stubs! {
     #[kani::unwind(6)]
     fn c01_recorder_values_counted() { recorder_direct(1, 3, false) }
 }
 
-// @cell props=C01,C02 tier=quick kind=core timeout=1800 mem=14 cls=K
+// @cell props=C01,C02 tier=quick kind=core timeout=1800 mem=26 cls=K
 // @desc sample recorder called directly, by-reference/inputs-only path, sample size symbolic 0..=3, input counter attached
 mon_stubs! {
     #[kani::unwind(6)]
